@@ -34,7 +34,12 @@ Inductive ccase :=
             (closed : list nat)     (* PullID threads whose channel had been closed by the time of the sentinel *)
 (* a free-running history: call, invocation stamp, response stamp, result *)
 | CaseHist (idf : option idf) (vinit : option fmsg) (cinit : list (string * fmsg * Z))
-           (hist : list (fcall * Z * Z * fout)) (final_v : option fmsg) (final_c : list (string * fmsg)).
+           (hist : list (fcall * Z * Z * fout)) (final_v : option fmsg) (final_c : list (string * fmsg))
+(* a free-running program with subscribers (no gates, no schedule): the calls of prog were issued by
+   goroutines running free on all cores; observed as in CaseSched.  Judged by the oracle alone. *)
+| CaseFree (idf : option idf) (vinit : option fmsg) (cinit : list (string * fmsg * Z))
+           (prog : list fcall) (results : list fout) (final_v : option fmsg) (final_c : list (string * fmsg))
+           (vstreams : list (nat * list ovchange)) (cstreams : list (nat * list ochange)) (closed : list nat).
 
 (* ---------- instantiation ---------- *)
 Notation lcall := (call fmsg fwriter (list fld)).
@@ -213,6 +218,7 @@ Definition agrees (c : ccase) : bool :=
                      end
                  end) (st_csubs s)
   | CaseHist _ _ _ _ _ _ => true      (* no schedule to compare: judged by the oracle alone *)
+  | CaseFree _ _ _ _ _ _ _ _ _ _ => true
   end.
 
 (* ---------- C02: the history is linearizable (oracle: search over one-at-a-time orders,
@@ -296,6 +302,7 @@ Definition C02_ok (c : ccase) : bool :=
       linearizable_b i vinit cinit (hist_of 0 prog results sched) fv fc
   | CaseHist i vinit cinit hist fv fc =>
       linearizable_b i vinit cinit (map (fun p => mkH (fst (fst (fst p))) (snd (fst (fst p))) (snd (fst p)) (snd p)) hist) fv fc
+  | CaseFree _ _ _ _ _ _ _ _ _ _ => true
   end.
 
 (* ---------- C03: the folded view is the final read ---------- *)
@@ -338,19 +345,26 @@ Definition pid_ok (id : string) (ro : fro) (stream : list ovchange) (is_closed :
 Definition pid_ro (t : nat) (prog : list fcall) : option (string * fro) :=
   match nth_error prog t with Some (FSubID id ro) | Some (FSubL (Some id) ro) => Some (id, ro) | _ => None end.
 
+(* every subscriber's fold of what it received is the final read (model-free) *)
+Definition c03_pred (i : option idf) (prog : list fcall) (fv : option fmsg) (fc : list (string * fmsg))
+           (vstreams : list (nat * list ovchange)) (cstreams : list (nat * list ochange)) (closed : list nat) : bool :=
+  forallb (fun p => match pid_ro (fst p) prog with
+                    | Some (id, ro) => pid_ok (apply_id (idfun_of i) id) ro (snd p) (existsb (Nat.eqb (fst p)) closed) fc
+                    | None =>
+                        match sub_ro (fst p) prog with
+                        | Some (true, ro) => vview_ok ro (snd p) fv
+                        | _ => false end
+                    end) vstreams &&
+  forallb (fun p => match sub_ro (fst p) prog with
+                    | Some (false, ro) => cview_ok ro (snd p) fc
+                    | _ => false end) cstreams.
+
 Definition C03_ok (c : ccase) : bool :=
   match c with
   | CaseSched i vinit cinit prog sched results fv fc vstreams cstreams closed =>
-      forallb (fun p => match pid_ro (fst p) prog with
-                        | Some (id, ro) => pid_ok (apply_id (idfun_of i) id) ro (snd p) (existsb (Nat.eqb (fst p)) closed) fc
-                        | None =>
-                            match sub_ro (fst p) prog with
-                            | Some (true, ro) => vview_ok ro (snd p) fv
-                            | _ => false end
-                        end) vstreams &&
-      forallb (fun p => match sub_ro (fst p) prog with
-                        | Some (false, ro) => cview_ok ro (snd p) fc
-                        | _ => false end) cstreams
+      c03_pred i prog fv fc vstreams cstreams closed
+  | CaseFree i vinit cinit prog results fv fc vstreams cstreams closed =>
+      c03_pred i prog fv fc vstreams cstreams closed
   | CaseHist _ _ _ _ _ _ => true
   end.
 
